@@ -91,7 +91,13 @@ def apply_damage(root, single, view, damage, tree):
         s = state[index[key]]
         if not s["present"]:
             continue
-        if d["kind"] == "remove":
+        if d["kind"] == "rmdir" and not single and len(key) > 1:
+            import shutil
+            shutil.rmtree(os.path.join(root, key[0]))
+            for s2 in state:            # every entry below that directory is gone with it
+                if s2["present"] and not os.path.lexists(s2["path"]):
+                    s2["present"], s2["len"], s2["flips"] = False, 0, []
+        elif d["kind"] in ("remove", "rmdir"):
             os.remove(s["path"])
             s["present"], s["len"], s["flips"] = False, 0, []
         elif d["kind"] == "trunc":
